@@ -238,10 +238,19 @@ Fixpoint parse_params (fuel : nat) (s : pystr) : option (list raw_param * pystr)
                       end
                   | None => None
                   end
-                else match parse_params f r1 with
-                     | Some (ps, r4) => Some ((pn, []) :: ps, r4)
-                     | None => None
-                     end
+                else
+                  (* a name without '=' (vCard 2.1 singleton); line_re lets ", value" groups follow it, parseParams ignores them *)
+                  let r1' := if d =? COMMA then
+                               match parse_pvalues (S (List.length r2)) r2 with Some (_, r3) => Some r3 | None => None end
+                             else Some r1 in
+                  match r1' with
+                  | Some r1'' =>
+                      match parse_params f r1'' with
+                      | Some (ps, r4) => Some ((pn, []) :: ps, r4)
+                      | None => None
+                      end
+                  | None => None
+                  end
             | [] => None
             end
           else if c =? COLON then Some ([], r) else None
